@@ -112,6 +112,19 @@ CHECKS["C18"] = dict(
   note="Trusts only equality of two runs of the code under test (metamorphic/differential oracle) and the canonical dump. Multi-module texts and revisions are not used; reads respect the documented 'Process first' precondition.",
   design="DESIGN.md section 4, C18")
 
+CHECKS["C13"] = dict(
+  category="exploration",
+  technique="three rapid generators with reference models: module headers x all load permutations (revision binding), generated directory layouts in temporary directories (file chooser model), and a metamorphic split of a module into submodules that must not change the result",
+  text="(a) 1-5 module headers over two names and four dates with importers are loaded in every permutation (<= 24; 12 sampled for five texts): acceptance per (name, latest revision), the bare key, dated keys and import bindings must follow the model in every order. (b) Up to seven candidate and near-miss files in 1-3 search-path directories, each declaring the wanted module with a namespace that names its own path, fetched by Read, import and dated import: the chosen file must be the model's (first directory with a candidate, exact name else latest date, never a near miss, failure when none). (c) A generated module and a random partition of its body into 1-3 submodules with the includes its references need (mutual includes with the ignore-circular option): tree, types, attributes and identity lists must equal those of the unsplit module.",
+  note="Trusts the small reference models in the check and canon's dump. Recursive dir/... search order and belongs-to prefixes differing from the module prefix are not generated; temporary directories live under the system temp dir and are removed per case.",
+  design="DESIGN.md section 4, C13")
+CHECKS["C19"] = dict(
+  category="exploration",
+  technique="stress under the Go race detector with rapid-generated module sets and query scripts, each case in a child process so that a race report is attributed; results compared with a sequential run (differential)",
+  text="Each case runs in a child process of the -race test binary with GOMAXPROCS=8: either 8-16 barrier-released goroutines each running the full load-process-dump pipeline on its own generated module set (3 rounds), or 8-16 readers issuing the same 60 generated read-only queries in individually shuffled orders against one freshly processed set, the first query of each being a first-time instantiating-module lookup (4 rounds). Any race report on the child's output, any panic and any result that differs from the sequential run of the same work is a violation. The family does not own the scheduler: what is decided is the absence of unsynchronised conflicting accesses on the exercised paths and of result-changing interference during the stress, not all interleavings.",
+  note="Trusts the Go race detector. Queries never name unwritten rpc input/output nor unresolvable prefixes (those lookups write by design).",
+  design="DESIGN.md section 4, C19")
+
 PENDING = {}
 
 def main():
